@@ -221,7 +221,12 @@ private:
     // (15) - this acquire-load synchronizes-with the release-stores (4, 5, 9, 21, 28)
     auto last_prev = last->prev.load(std::memory_order_acquire);
     auto last_stamp = last->stamp.load(std::memory_order_relaxed);
-    if (last_stamp > stamp && last_prev.get() == tail && tail->next.load(std::memory_order_relaxed) == last) {
+    // The stamp of last can only be used if last is really part of the list. The re-check of tail->next does not
+    // guarantee this - it may return the same outdated value again - so we have to look at the flags as well;
+    // otherwise tail could end up with a stamp that has the NotInList flag set, and all subsequent remove
+    // operations would wrongly conclude that their block has already been removed.
+    if (last_stamp > stamp && (last_stamp & (NotInList | PendingPush)) == 0 && last_prev.get() == tail &&
+        tail->next.load(std::memory_order_relaxed) == last) {
       assert((last_stamp & PendingPush) == 0);
       assert((last_stamp & NotInList) == 0);
       assert(last_stamp >= stamp);
